@@ -810,6 +810,19 @@ package adaptation
 //@   ensures [stage]  result != nil ==> reply.Linux.Resources == old(reply.Linux.Resources) && (r.request.update != nil ==> r.request.update.LinuxResources == old(r.request.update.LinuxResources))
 //@   ensures [commit] result == nil && u.Linux != nil && u.Linux.Resources != nil ==> reply.Linux.Resources != nil && fresh(reply.Linux.Resources)
 //@                    && (old(ownUpdate(r, u)) ==> r.request.update.LinuxResources != nil && fresh(r.request.update.LinuxResources) && r.request.update.LinuxResources != reply.Linux.Resources)
+//@   ensures [notown] !old(ownUpdate(r, u)) || u.Linux == nil || u.Linux.Resources == nil ==> (r.request.update != nil ==> r.request.update.LinuxResources == old(r.request.update.LinuxResources))
+//@   ensures [noopl]  u.Linux == nil || u.Linux.Resources == nil ==> has(r.owners, u.ContainerId) == old(has(r.owners, u.ContainerId)) && uledger(r, u) == old(uledger(r, u)) && uledger(r, u).hugepageLimits == old(uledger(r, u).hugepageLimits) && uledger(r, u).unified == old(uledger(r, u).unified)
+//@   ensures [wfro]   wfRO(r.owners)
+//@   ensures [lsame]  old(has(r.owners, u.ContainerId)) ==> has(r.owners, u.ContainerId) && uledger(r, u) == old(uledger(r, u))
+//@   ensures [lnew]   !old(has(r.owners, u.ContainerId)) && has(r.owners, u.ContainerId) ==> fresh(uledger(r, u)) && zeroedexcept(uledger(r, u), "memLimit", "memReservation", "memSwapLimit", "memKernelLimit", "memTCPLimit", "memSwappiness", "memDisableOomKiller", "memUseHierarchy", "cpuShares", "cpuQuota", "cpuPeriod", "cpuRealtimeRuntime", "cpuRealtimePeriod", "cpusetCpus", "cpusetMems", "blockioClass", "rdtClass", "pidsLimit", "hugepageLimits", "unified")
+//@   ensures [labs]   !has(r.owners, u.ContainerId) ==> !old(has(r.owners, u.ContainerId))
+//@   ensures [lmaps]  (uledger(r, u).hugepageLimits == nil || uledger(r, u).hugepageLimits == old(uledger(r, u).hugepageLimits) || fresh(uledger(r, u).hugepageLimits))
+//@                    && (uledger(r, u).unified == nil || uledger(r, u).unified == old(uledger(r, u).unified) || fresh(uledger(r, u).unified))
+//@   ensures [lwf]    u.Linux != nil && u.Linux.Resources != nil ==> wfOwners(uledger(r, u))
+//@   ensures [cwf]    result == nil && u.Linux != nil && u.Linux.Resources != nil ==> allocated(reply.Linux.Resources.Memory) && allocated(reply.Linux.Resources.Cpu) && noNilHP(reply.Linux.Resources.HugepageLimits)
+//@                    && (reply.Linux.Resources.Unified == nil || fresh(reply.Linux.Resources.Unified)) && avoids(uledger(r, u), reply.Linux.Resources.Unified)
+//@   ensures [cwfown] result == nil && u.Linux != nil && u.Linux.Resources != nil && old(ownUpdate(r, u)) ==> allocated(r.request.update.LinuxResources.Memory) && allocated(r.request.update.LinuxResources.Cpu) && noNilHP(r.request.update.LinuxResources.HugepageLimits)
+//@                    && (r.request.update.LinuxResources.Unified == nil || fresh(r.request.update.LinuxResources.Unified)) && avoids(uledger(r, u), r.request.update.LinuxResources.Unified)
 //@   ensures [memLimit.c01] u.Linux != nil && u.Linux.Resources != nil && (ures(u).Memory != nil && ures(u).Memory.Limit != nil) && old(uledger(r, u).memLimit) != "" ==> result != nil
 //@   ensures [memLimit.set] result == nil && u.Linux != nil && u.Linux.Resources != nil && (ures(u).Memory != nil && ures(u).Memory.Limit != nil) ==> uledger(r, u).memLimit == plugin && reply.Linux.Resources.Memory.Limit != nil && reply.Linux.Resources.Memory.Limit.Value == ures(u).Memory.Limit.Value
 //@                    && (old(ownUpdate(r, u)) ==> r.request.update.LinuxResources.Memory.Limit != nil && r.request.update.LinuxResources.Memory.Limit.Value == ures(u).Memory.Limit.Value)
@@ -894,6 +907,73 @@ package adaptation
 //@   loop 2 invariant (pre(uledger(r, u).unified) != nil ==> uledger(r, u).unified == pre(uledger(r, u).unified)) && (pre(uledger(r, u).unified) == nil ==> uledger(r, u).unified == nil || prefresh(uledger(r, u).unified))
 //@   loop 2 invariant pre(has(r.owners, u.ContainerId)) ==> has(r.owners, u.ContainerId) && uledger(r, u) == pre(uledger(r, u))
 //@   loop 2 invariant !pre(has(r.owners, u.ContainerId)) && has(r.owners, u.ContainerId) ==> prefresh(uledger(r, u))
+
+// ---------------------------------------------------------------------------
+// Update collection (result.go: getContainerUpdate, update, *Response) — C05
+// ---------------------------------------------------------------------------
+//@ pure wfRes(x *LinuxResources) = allocated(x) && allocated(x.Memory) && allocated(x.Cpu) && noNilHP(x.HugepageLimits)
+//@ pure wfEntry(e *ContainerUpdate) = allocated(e) && allocated(e.Linux) && wfRes(e.Linux.Resources)
+//@ pure wfUpdates(r *result) = r.updates != nil && (forall id string :: has(r.updates, id) ==> wfEntry(r.updates[id]) && r.updates[id].ContainerId == id)
+//@ pure selfCreate(r *result, id string) = r.request.create != nil && r.request.create.Container != nil && r.request.create.Container.Id == id
+//@ pure ownId(r *result, id string) = r.request.update != nil && r.request.update.Container.Id == id
+// an entry no plugin has written to yet: every optional field unset, nothing in the lists
+//@ pure emptyMem(m *LinuxMemory) = m.Limit == nil && m.Reservation == nil && m.Swap == nil && m.Kernel == nil && m.KernelTcp == nil && m.Swappiness == nil && m.DisableOomKiller == nil && m.UseHierarchy == nil
+//@ pure emptyCpu(c *LinuxCPU) = c.Shares == nil && c.Quota == nil && c.Period == nil && c.RealtimeRuntime == nil && c.RealtimePeriod == nil && c.Cpus == "" && c.Mems == ""
+//@ pure emptyRes(x *LinuxResources) = emptyMem(x.Memory) && emptyCpu(x.Cpu) && len(x.HugepageLimits) == 0 && len(x.Unified) == 0 && x.BlockioClass == nil && x.RdtClass == nil && x.Pids == nil && len(x.Devices) == 0
+
+//@ func result.getContainerUpdate
+//@   props C05
+//@   requires r != nil && allocated(u) && wfUpdates(r) && (r.request.update != nil ==> allocated(r.request.update.Container))
+//@   modifies mapkey(r.updates, u.ContainerId), r.updates[u.ContainerId].IgnoreFailure, r.reply.update, elems(r.reply.update)
+//@   ensures [self]   old(selfCreate(r, u.ContainerId)) ==> result.1 != nil && result.0 == nil && r.reply.update == old(r.reply.update) && has(r.updates, u.ContainerId) == old(has(r.updates, u.ContainerId)) && r.updates[u.ContainerId] == old(r.updates[u.ContainerId])
+//@   ensures [ok]     !old(selfCreate(r, u.ContainerId)) ==> result.1 == nil && result.0 != nil && has(r.updates, u.ContainerId) && r.updates[u.ContainerId] == result.0
+//@   ensures [once]   !old(selfCreate(r, u.ContainerId)) && old(has(r.updates, u.ContainerId)) ==> result.0 == old(r.updates[u.ContainerId]) && r.reply.update == old(r.reply.update)
+//@                    && result.0.IgnoreFailure == (old(r.updates[u.ContainerId].IgnoreFailure) && u.IgnoreFailure)
+//@   ensures [new]    !old(selfCreate(r, u.ContainerId)) && !old(has(r.updates, u.ContainerId)) ==> fresh(result.0) && wfEntry(result.0) && result.0.ContainerId == u.ContainerId
+//@                    && result.0.IgnoreFailure == u.IgnoreFailure && fresh(result.0.Linux) && fresh(result.0.Linux.Resources) && fresh(result.0.Linux.Resources.Memory) && fresh(result.0.Linux.Resources.Cpu)
+//@                    && emptyRes(result.0.Linux.Resources) && result.0.Linux.Resources.Unified != nil && fresh(result.0.Linux.Resources.Unified)
+//@   ensures [listed] !old(selfCreate(r, u.ContainerId)) && !old(has(r.updates, u.ContainerId)) && !old(ownId(r, u.ContainerId)) ==> len(r.reply.update) == old(len(r.reply.update)) + 1
+//@                    && r.reply.update[old(len(r.reply.update))] == result.0 && (forall i int :: 0 <= i && i < old(len(r.reply.update)) ==> r.reply.update[i] == old(r.reply.update[i]))
+//@   ensures [own]    !old(selfCreate(r, u.ContainerId)) && !old(has(r.updates, u.ContainerId)) && old(ownId(r, u.ContainerId)) ==> r.reply.update == old(r.reply.update)
+//@   ensures [prefix] len(r.reply.update) >= old(len(r.reply.update)) && (forall i int :: 0 <= i && i < old(len(r.reply.update)) ==> r.reply.update[i] == old(r.reply.update[i]))
+//@   ensures [arr]    base(r.reply.update) == old(base(r.reply.update)) || fresh(r.reply.update)
+//@   ensures [wf]     wfUpdates(r)
+
+// -- the collected state (request, per-target entries, ledgers) is well formed and its maps do not alias
+//@ pure wfReq(r *result) = r.request.update != nil ==> allocated(r.request.update.Container) && wfRes(r.request.update.LinuxResources)
+//@ pure wfLedgers(r *result) = wfRO(r.owners) && (forall j string :: has(r.owners, j) ==> wfOwners(r.owners[j]))
+//@ pure ledgersClear(r *result) = (forall j string :: has(r.owners, j) && has(r.updates, j) ==> avoids(r.owners[j], r.updates[j].Linux.Resources.Unified))
+//@      && (forall j string :: has(r.owners, j) && r.request.update != nil ==> avoids(r.owners[j], r.request.update.LinuxResources.Unified))
+//@ pure wfCollect(r *result) = r != nil && wfUpdates(r) && wfReq(r) && wfLedgers(r) && ledgersClear(r)
+// a plugin's update shares no object with the collected state (it was decoded from the plugin's reply)
+//@ pure wfIn(u *ContainerUpdate) = allocated(u) && (u.Linux != nil && u.Linux.Resources != nil ==> noNilHP(u.Linux.Resources.HugepageLimits))
+//@ pure foreign(r *result, u *ContainerUpdate) = (forall id string :: has(r.updates, id) ==> u != r.updates[id] && u.Linux != r.updates[id].Linux && (u.Linux != nil ==> u.Linux.Resources != r.updates[id].Linux.Resources))
+//@      && (r.request.update != nil && u.Linux != nil ==> u.Linux.Resources != r.request.update.LinuxResources)
+//@      && (forall j string :: has(r.owners, j) && u.Linux != nil && u.Linux.Resources != nil ==> avoids(r.owners[j], u.Linux.Resources.Unified))
+
+//@ func result.update
+//@   props C05
+//@   requires wfCollect(r) && (forall i int :: 0 <= i && i < len(updates) ==> wfIn(updates[i]) && foreign(r, updates[i])) && sep(base(updates), base(r.reply.update))
+//@   modifies @writes
+//@   ensures [wf]      wfCollect(r)
+//@   ensures [ignore]  (forall i int :: 0 <= i && i < len(updates) ==> updates[i].IgnoreFailure && !old(selfCreate(r, updates[i].ContainerId))) ==> result == nil
+//@   ensures [self]    result == nil ==> (forall i int :: 0 <= i && i < len(updates) ==> !old(selfCreate(r, updates[i].ContainerId)))
+//@   ensures [once]    result == nil ==> (forall i int :: 0 <= i && i < len(updates) ==> has(r.updates, updates[i].ContainerId))
+//@   ensures [listed]  len(r.reply.update) >= old(len(r.reply.update)) && (forall i int :: 0 <= i && i < old(len(r.reply.update)) ==> r.reply.update[i] == old(r.reply.update[i]))
+//@   ensures [kept]    forall id string :: old(has(r.updates, id)) ==> has(r.updates, id) && r.updates[id] == old(r.updates[id])
+//@   loop 1 invariant 0 <= idx + 1 && idx + 1 <= len(updates)
+//@   loop 1 invariant r != nil && wfUpdates(r) && wfReq(r) && wfRO(r.owners) && (forall j string :: has(r.owners, j) ==> wfOwners(r.owners[j])) && sep(base(updates), base(r.reply.update))
+//@   loop 1 invariant forall j string :: has(r.owners, j) && has(r.updates, j) ==> avoids(r.owners[j], r.updates[j].Linux.Resources.Unified)
+//@   loop 1 invariant forall j string :: has(r.owners, j) && r.request.update != nil ==> avoids(r.owners[j], r.request.update.LinuxResources.Unified)
+//@   loop 1 invariant forall i int :: 0 <= i && i < len(updates) ==> wfIn(updates[i])
+//@   loop 1 invariant forall i int :: 0 <= i && i < len(updates) ==> (forall id string :: has(r.updates, id) ==> updates[i] != r.updates[id] && updates[i].Linux != r.updates[id].Linux && (updates[i].Linux != nil ==> updates[i].Linux.Resources != r.updates[id].Linux.Resources))
+//@   loop 1 invariant forall i int :: 0 <= i && i < len(updates) ==> (r.request.update != nil && updates[i].Linux != nil ==> updates[i].Linux.Resources != r.request.update.LinuxResources)
+//@   loop 1 invariant forall i int :: 0 <= i && i < len(updates) ==> (forall j string :: has(r.owners, j) && updates[i].Linux != nil && updates[i].Linux.Resources != nil ==> avoids(r.owners[j], updates[i].Linux.Resources.Unified))
+//@   loop 1 invariant forall i int :: 0 <= i && i < len(updates) ==> updates[i] == old(updates[i])
+//@   loop 1 invariant r.request.create == old(r.request.create) && r.request.update == old(r.request.update)
+//@   loop 1 invariant forall i int :: 0 <= i && i <= idx ==> !old(selfCreate(r, updates[i].ContainerId)) && has(r.updates, updates[i].ContainerId)
+//@   loop 1 invariant len(r.reply.update) >= old(len(r.reply.update)) && (forall i int :: 0 <= i && i < old(len(r.reply.update)) ==> r.reply.update[i] == old(r.reply.update[i]))
+//@   loop 1 invariant forall id string :: old(has(r.updates, id)) ==> has(r.updates, id) && r.updates[id] == old(r.updates[id])
 
 // ---------------------------------------------------------------------------
 // Plugin relays (plugin.go) and request dispatch (adaptation.go)   [generated by gen_relays.py]
